@@ -1,152 +1,35 @@
-"""C08 on E-cell histories (Props/C08.v, harness/ecell_oracles.py) plus a master-level stage: the statement's retention
-clause on the real Master/Loader (server state records, restarts, server reloads) over an in-memory backend."""
-import random
-
+"""C08 on E-cell histories (Props/C08.v, harness/ecell_oracles.py) plus a master-level stage (harness/props/c08master.py,
+Master/SrvState.v): the Loader's server-state bookkeeping compared with its model operation by operation, and the
+retention clause checked on the real Master against the harness's own record of when each server went down."""
 from .. import core
 from . import _ecell_prop as E
+from . import c08master
 
 PID = 'C08'
 PROFILE_C08 = {'failure': 0.9, 'blacklist': 0.4, 'pressure': 0.5, 'identity': 0.3, 'frozen': 0.45}
 RULE_C08 = ('C08 profile: servers going down/up/frozen with clock ticks around each retention boundary, blacklist '
             'changes, unschedule marks, capacity pressure; plus a master-level stage: E-master histories (presence lost '
-            'and regained, master restarts, server records reloaded, ticks around the retention times) on the real '
-            'Master, the retention clause checked after every cycle against the harness\'s own record of when each '
-            'server went down')
-
-
-class _Tracker:
-    """The harness's own view of the history: when each server went down (independent of the scheduler's `since` and
-    of the state records in the store) and which instances sat on it after the previous cycle."""
-
-    def __init__(self, emaster):
-        self.em = emaster
-        self.down_since = {}     # server name -> time it went down (first down event while it was up)
-        self.dirty = set()       # servers whose record was rewritten / state event since the previous cycle
-        self.prev_on = {}        # server name -> {instance name} after the previous cycle
-        self.prev_master = None  # the Master object that ran the previous cycle (a different one = restarted since)
-        self.prev_time = None    # when the previous cycle was observed
-        self.hits = []
-
-    def on_op(self, w, op):
-        k = op[0]
-        if k in ('PresenceDown', 'PresenceUp', 'PresenceUpRaw', 'PresenceBounce', 'ServerState'):
-            name = self.em.sname(op[1])
-            if k == 'PresenceDown':
-                self.down_since.setdefault(name, w.now)
-            elif k in ('PresenceUp', 'PresenceUpRaw'):
-                self.down_since.pop(name, None)
-            elif k == 'ServerState':
-                # an explicit state event (frozen / up / down) is outside the retention clause checked here
-                self.down_since.pop(name, None)
-                self.dirty.add(name)
-        elif k == 'ServerRecord':
-            self.dirty.add(self.em.sname(op[1]['id']))
-        elif k == 'ServerDeleteApi':
-            name = self.em.sname(op[1])
-            self.down_since.pop(name, None)
-            self.dirty.add(name)
-
-    def after_cycle(self, w, where):
-        cell = w.m.cell
-        sched = w.scheduler_mod if hasattr(w, 'scheduler_mod') else None
-        now = w.now
-        members = cell.members()
-        restarted = self.prev_master is not None and self.prev_master is not w.m
-        self.prev_master = w.m
-        for name, t0 in sorted(self.down_since.items()):
-            if name in self.dirty or name not in members:
-                continue
-            if restarted and (self.prev_time is None or t0 > self.prev_time):
-                # the server was up across a master restart whose start-up cycle was not observed: what sat on it
-                # before that restart says nothing about what the new master found there
-                continue
-            for aname in sorted(self.prev_on.get(name, ())):
-                app = cell.apps.get(aname)
-                if app is None or app.blacklisted:
-                    continue
-                if getattr(app, 'final_rank', None) is not None and sched is not None \
-                        and app.final_rank == sched._UNPLACED_RANK:
-                    continue
-                grp = app.identity_group_ref
-                if grp is not None and app.identity is not None and app.identity >= grp.count:
-                    continue
-                drt = app.data_retention_timeout or 0
-                still = app.server == name
-                if now < t0 + drt and not still:
-                    sig = 'master:removed-from-down-server-within-retention'
-                    if restarted and app.lease:
-                        # Loader.restore_placement re-evaluates the lease of an instance on a server without presence
-                        sig += ':lease-reevaluated-at-restart'
-                    self.hits.append((sig,
-                                      '%s: %s left %s at %s although it went down at %s and retention is %ss'
-                                      % (where, aname, name, now, t0, drt)))
-                if now >= t0 + drt and still:
-                    self.hits.append(('master:kept-on-down-server-after-retention',
-                                      '%s: %s still on %s at %s, down since %s, retention %ss'
-                                      % (where, aname, name, now, t0, drt)))
-        self.prev_on = {n: set(s.apps) for n, s in members.items()}
-        self.prev_time = now
-        self.dirty = set()
-
-
-def _run_master_history(case):
-    from .. import emaster
-    tr = _Tracker(emaster)
-    orig_apply = emaster.World.apply
-
-    def apply(w, op):
-        tr.on_op(w, op)
-        return orig_apply(w, op)
-    emaster.World.apply = apply
-    try:
-        res = emaster.run_history(case, crash_points=False, want=(), cell_hook=tr.after_cycle)
-    finally:
-        emaster.World.apply = orig_apply
-    return tr.hits, res
-
-
-def master_stage(r, seed, n):
-    from .. import emaster
-    rng = random.Random(seed + 13)
-    cycles = 0
-    tot = 0
-    down_checked = 0
-    for _ in range(n):
-        case = emaster.gen_case(rng, profile='c08')
-        for a in case['apps']:
-            if rng.random() < 0.7:
-                a[1]['drt'] = rng.choice([30, 300])
-        for op in case['ops']:
-            if op[0] == 'Schedule' and rng.random() < 0.7:
-                op[2]['drt'] = rng.choice([30, 300])
-        try:
-            hits, res = _run_master_history(case)
-        except Exception as exc:   # noqa
-            r.broken_obligation('correspondence', 'C08 master stage could not drive the master: %s: %s'
-                                % (type(exc).__name__, str(exc)[:200]))
-            break
-        cycles += res.get('stats', {}).get('cycles', 0) if isinstance(res, dict) else 0
-        seen = set()
-        for sig, what in hits:
-            if sig in seen:
-                continue
-            seen.add(sig)
-            tot += 1
-            r.violation(sig, what, {'engine': 'E-master-c08', 'case': case})
-        down_checked += sum(1 for op in case['ops'] if op[0] == 'PresenceDown')
-    return {'master_stage': {'histories': n, 'master_cycles': cycles, 'presence_down_events': down_checked,
-                             'violations': tot}}
+            'and regained - also while no master is looking -, master restarts, server records reloaded, ticks around '
+            'the retention times) on the real Master: per server and operation the in-memory (state, since), the stored '
+            'record and the presence node are compared with Master/SrvState.v, and the retention clause is checked '
+            'after every cycle against the harness\'s own record of when each server went down')
 
 
 def run(tier, seed):
     spec = E.make_spec(PID, PROFILE_C08, RULE_C08)
     spec['anchors'] = list(spec['anchors']) + ['lib/python/treadmill/scheduler/loader.py',
                                                'lib/python/treadmill/scheduler/master.py']
+    spec['trusted'] = list(spec['trusted']) + [
+        'hand-written model coq/theories/Master/SrvState.v of Loader.adjust_server_state / adjust_presence / load_server / '
+        'reload_server and Master._handle_server_state_event / _record_server_state for one server (in-memory state and '
+        'since, stored record, presence node), tied by differential execution on E-master histories (every operation of '
+        'every server); a master restart is observed after load_model and the first presence callback together',
+    ]
     inner = spec['extra']
 
     def extra(r, cases, obs):
         cov = inner(r, cases, obs)
-        cov.update(master_stage(r, seed, 80 if tier == 'quick' else 4000))
+        cov.update(c08master.stage(r, seed, 80 if tier == 'quick' else 4000))
         return cov
     spec['extra'] = extra
     core.standard_run(PID, tier, seed, spec)
@@ -154,6 +37,5 @@ def run(tier, seed):
 
 def replay_case(case):
     if isinstance(case, dict) and case.get('engine') == 'E-master-c08':
-        hits, _res = _run_master_history(case['case'])
-        return hits[0] if hits else None
+        return c08master.replay(case['case'])
     return E.replay(PID, case)
